@@ -135,6 +135,15 @@ def handlePTN : Handler := fun st op args =>
     some (st, match parseFile toks with
       | none => "bad-file"
       | some f => hexEnc (render (mkEnv st noTps) f))
+  | "ptnrt", toks =>
+    -- render, parse again, compare tags and ops (src cleared): `same` / `differs` / `err`
+    some (st, match parseFile toks with
+      | none => "bad-file"
+      | some f =>
+        let env := mkEnv st noTps
+        match parsePTN env (render env f) with
+        | .error e => fmtErr' e
+        | .ok g => if g.tags == f.tags && g.ops.map Op.clearSrc == f.ops.map Op.clearSrc then "same" else "differs")
   | "ptnaddmoves", toks =>
     some (st, match toks.mapM parseMove with
       | none => "bad-move"
